@@ -35,10 +35,12 @@ const (
 	fAggBoot
 	fKindLabel // kind watch with a label selector (only resources labelled sel=1 match)
 	fAggIDQuery
+	fKindBBTail
+	fAggBBTail
 	nFlavours
 )
 
-var fNames = []string{"watch-id", "watch-kind", "watch-kind-agg", "watch-kind-bootstrap", "watch-kind-agg-bootstrap", "watch-kind-label-selector", "watch-kind-agg-id-selector"}
+var fNames = []string{"watch-id", "watch-kind", "watch-kind-agg", "watch-kind-bootstrap", "watch-kind-agg-bootstrap", "watch-kind-label-selector", "watch-kind-agg-id-selector", "watch-kind-bootstrap-bookmark+tail2", "watch-kind-agg-bootstrap-bookmark+tail2"}
 
 type plan struct {
 	fl       flavour
@@ -202,6 +204,10 @@ func startWatch(ctx context.Context, st state.CoreState, fl flavour, s *sink) er
 		err = st.WatchKind(ctx, hx.IntKind(), ch, state.WatchWithLabelQuery(resource.LabelEqual("sel", "1")))
 	case fAggIDQuery:
 		err = st.WatchKindAggregated(ctx, hx.IntKind(), ach, state.WatchWithIDQuery(resource.IDRegexpMatch(regexp.MustCompile("^a$"))))
+	case fKindBBTail:
+		err = st.WatchKind(ctx, hx.IntKind(), ch, state.WithBootstrapBookmark(true), state.WithKindTailEvents(2))
+	case fAggBBTail:
+		err = st.WatchKindAggregated(ctx, hx.IntKind(), ach, state.WithBootstrapBookmark(true), state.WithKindTailEvents(2))
 	}
 	if err != nil {
 		return err
@@ -461,8 +467,11 @@ func build(tier string) []explore.Scenario {
 			{fl: fl, failIdx: 2, lost: false, estFail: 1, outageW: 1, writes: 2},
 			{fl: fl, failIdx: 2, lost: true, repeat: 1, repeatAt: 2, outageW: 2, writes: 2},
 		} {
+			if fl >= fKindBBTail && p.repeat == 0 && p.estFail == 0 {
+				continue // the replaying flavours: two plans are enough for the schedule part
+			}
 			sc := schedScenario(p, b)
-			sc.MaxExecs = 150000
+			sc.MaxExecs = 100000
 			if tier == "thorough" {
 				sc.MaxExecs = 6000000
 			}
@@ -479,7 +488,7 @@ func main() {
 		RequireShims: true,
 		Level:        "fault_enumeration",
 		Technique:    "exhaustive enumeration of transport fault plans (position x mode x repetitions x re-establishment failures x writes during the outage) on the real client adapter and server over an in-process transport, virtual clock, exact quiescence; plus stateless exploration of schedules for selected plans",
-		Rule:         "7 watch flavours (incl. label- and ID-selector watches) x fault positions 0..5 x {before message, message lost} x repeat 0..2 x failed re-establishments 0..2 x outage writes 0..2, plus retries disabled, server restarted, history moved on; non-trivial = distinct plans",
+		Rule:         "9 watch flavours (incl. label- and ID-selector watches and bootstrap-bookmark + tail) x fault positions 0..5 x {before message, message lost} x repeat 0..2 x failed re-establishments 0..2 x outage writes 0..2, plus retries disabled, server restarted, history moved on; non-trivial = distinct plans",
 		Assume:       []string{"transport failures are modelled at the Recv/Watch-call seam the client code sees (Unavailable)", "a restarted server is modelled by replacing the backend with a fresh, shorter log (the bookmark cookie is process-global)"},
 		Extra:        map[string]any{"explanation": "states = fault plans executed; transitions = scheduler steps"},
 	}, build)
